@@ -26,6 +26,7 @@ type JobCfg struct {
 	Witnesses int
 	Tier      string
 	Deadline  time.Duration
+	Cut       int
 }
 
 type InputVal struct {
@@ -244,6 +245,7 @@ func (j *Job) runPath(tc *TermCtx, sv *Solvers, prefix []int64) {
 	ex.prefix = prefix
 	ex.maxSteps = j.Cfg.MaxSteps
 	ex.maxVisits = j.Cfg.MaxVisits
+	ex.cutVisits = j.Cfg.Cut
 	end, msg := ex.runHarness(j.Fn)
 
 	j.mu.Lock()
